@@ -21,6 +21,7 @@ import JanetModel.Value.StringLoop
 import JanetModel.Value.AbstractInt
 import JanetModel.Value.PtrShortcut
 import JanetModel.Value.MapLookup
+import JanetModel.Gen.ValueTrav
 
 namespace JanetModel.Props.C03
 open JanetModel.Value
@@ -741,5 +742,32 @@ example :
     contentEq (mapGet m₁ (.num ⟨0x8000000000000000⟩)) (mapGet m₂ (.num ⟨0x8000000000000000⟩)) = true ∧
     contentEq (mapGet m₁ .nil) (mapGet m₂ .nil) = true ∧ contentEq (mapGet m₁ (.num ⟨0x8000000000000000⟩)) (.kw [120]) = true := by
   refine ⟨?_, ?_, by decide, by decide, by decide, by decide, by decide⟩ <;> (unfold DistinctKeys; decide)
+
+/-! ### tie of `traversal_next` (session 4b): status numbers and branch structure regenerated from value.c -/
+
+section traversal_tie
+open JanetModel.Value.Traverse JanetModel.Gen.ValueTrav
+
+/-- the status of a `traversal_next` result (`none`: a next pair was found, status 0) -/
+def nextStatus : Next F64 → Option Nat
+  | .stop s => some s
+  | .found _ _ _ => none
+
+/-- the statuses the model's `traversalNext` returns are the ones read off the C on this run: a tuple frame of janet_compare
+    (index2 set) whose common prefix is exhausted compares the lengths (self longer / shorter), one of janet_equals (index2
+    clear) does not; a struct frame past its last slot compares the presence of prototypes; an empty stack ends the traversal;
+    janet_compare turns the status into its result by `status - travCompareBias` (`statusOrd`) -/
+theorem traversal_next_tie :
+    nextStatus (traversalNext [.tup [.nil] [] 0 true]) = some travTupleLonger ∧
+    nextStatus (traversalNext [.tup [] [.nil] 0 true]) = some travTupleShorter ∧
+    nextStatus (traversalNext [.tup [.nil] [] 0 false]) = some travExhausted ∧
+    nextStatus (traversalNext [.str [] [.struct [] []] [] [] 0 false]) = some travProtoSelfOnly ∧
+    nextStatus (traversalNext [.str [] [] [] [.struct [] []] 0 false]) = some travProtoOtherOnly ∧
+    nextStatus (traversalNext [.str [] [.struct [] []] [] [.struct [] []] 0 false]) = none ∧
+    nextStatus (traversalNext []) = some travExhausted ∧
+    statusOrd travTupleLonger = .gt ∧ statusOrd travTupleShorter = .lt ∧ statusOrd travExhausted = .eq ∧
+    travCompareBias = 2 ∧ travExhausted = travCompareBias := by decide
+
+end traversal_tie
 
 end JanetModel.Props.C03
